@@ -312,16 +312,34 @@ func runC20(e *Env) {
 					okIdx = c20IndexUnderNameMatch(e, ia.Index)
 				}
 			}
+			// the action's status: the handler's NodeStatus parameter, or the entry of a
+			// constant table of node statuses (`markedStatus[action]`)
+			isTo := func(v ssa.Value) bool {
+				v = ir.Resolve(v)
+				if toParam != nil && v == toParam {
+					return true
+				}
+				if _, which, fld, ents, okT := e.tableLookup(v); okT && which == 0 && fld == "" && len(ents) > 0 {
+					for _, en := range ents {
+						if _, isC := ir.ConstInt(en.Val); !isC || !strings.HasSuffix(ir.NamedType(en.Val.Type()), ".NodeStatus") {
+							return false
+						}
+					}
+					return true
+				}
+				return false
+			}
 			okVal := true
 			if field == "Status" {
-				okVal = ir.Resolve(st.Val) == toParam
+				okVal = isTo(st.Val)
 			}
 			if field == "StatusText" {
 				c, isC := ir.Resolve(st.Val).(*ssa.Call)
-				okVal = isC && len(c.Call.Args) == 1 && ir.Resolve(c.Call.Args[0]) == toParam
+				okVal = isC && len(c.Call.Args) == 1 && isTo(c.Call.Args[0])
 			}
 			r.Check(okField && okIdx && okVal, "status edit: store into "+field+" of the step named in the request", e.InstrPos(st),
-				"the edit writes something other than Status/StatusText of the node whose step name equals the request's step, or a value other than the action's status")
+				"the edit writes something other than Status/StatusText of the node whose step name equals the request's step, or a value other than the action's status",
+				sprintf("a status field of a recorded node: %v; node chosen by the request's step name: %v; value is the action's status: %v", okField, okIdx, okVal))
 		}
 	}
 	for _, ci := range ir.CallsIn(pu, func(c *ssa.CallCommon) bool { return clientCall(c, "UpdateStatus") }) {
@@ -434,13 +452,26 @@ func c20IndexUnderNameMatch(e *Env, idx ssa.Value) bool {
 		}
 		lits := e.DCSPhiEdge(blk, k)
 		match := false
-		for _, l := range lits {
-			if l.Kind == "cmp" && l.Op == token.EQL {
-				if (e.IsFieldRead(l.X, nil, "Step.Name") && e.IsFieldReadAll(l.Y, "Body.Step")) || (e.IsFieldRead(l.Y, nil, "Step.Name") && e.IsFieldReadAll(l.X, "Body.Step")) {
-					match = true
+		// the name test may be a predicate handed to the index helper (`match(v)`)
+		nAlt, allMatch := 0, true
+		e.ways(lits, func(alt []ir.NLit) {
+			nAlt++
+			m := false
+			isReqStep := func(v ssa.Value) bool {
+				return e.IsFieldReadAll(v, "Body.Step") || e.IsFieldReadAll(e.capturedValue(v), "Body.Step")
+			}
+			for _, l := range alt {
+				if l.Kind == "cmp" && l.Op == token.EQL {
+					if (e.IsFieldRead(l.X, nil, "Step.Name") && isReqStep(l.Y)) || (e.IsFieldRead(l.Y, nil, "Step.Name") && isReqStep(l.X)) {
+						m = true
+					}
 				}
 			}
-		}
+			if !m {
+				allMatch = false
+			}
+		})
+		match = nAlt > 0 && allMatch
 		if match {
 			found = true
 		} else {
@@ -457,6 +488,27 @@ func c20IndexUnderNameMatch(e *Env, idx ssa.Value) bool {
 					if rt, isR := b.Instrs[len(b.Instrs)-1].(*ssa.Return); isR && ex.Index < len(rt.Results) {
 						start = append(start, RetVals(rt, ex.Index)...)
 					}
+				}
+			}
+		}
+	}
+	// an index computed by a (generic) search helper with a single result
+	// (`idx := lastIndexFunc(run.Nodes, stepNamed(step))`): what it returns, with its
+	// parameters bound to this call's arguments
+	if c, isC := ir.Deep(idx).(*ssa.Call); isC {
+		if g := c.Call.StaticCallee(); g != nil && g.Blocks != nil && g.Signature.Results().Len() == 1 && len(ir.Loops(g)) == 1 {
+			bind := map[ssa.Value]ssa.Value{}
+			for i, p := range g.Params {
+				if i < len(c.Call.Args) {
+					bind[p] = c.Call.Args[i]
+				}
+			}
+			undo := ir.SetOverride(bind)
+			defer undo()
+			start = nil
+			for _, b := range g.Blocks {
+				if rt, isR := b.Instrs[len(b.Instrs)-1].(*ssa.Return); isR {
+					start = append(start, RetVals(rt, 0)...)
 				}
 			}
 		}
@@ -619,4 +671,48 @@ func (e *Env) alwaysNil(v ssa.Value, d int) bool {
 		}
 	}
 	return n > 0
+}
+
+// capturedValue: for a read of a variable captured by a closure (a free variable), what
+// the enclosing function stored into the captured cell - with a parameter of that function
+// replaced by the argument it is currently bound to; v itself otherwise.
+func (e *Env) capturedValue(v ssa.Value) ssa.Value {
+	u, ok := v.(*ssa.UnOp)
+	if !ok || u.Op != token.MUL {
+		return v
+	}
+	fv, ok := u.X.(*ssa.FreeVar)
+	if !ok {
+		return v
+	}
+	cl := fv.Parent()
+	par := cl.Parent()
+	if par == nil {
+		return v
+	}
+	for _, b := range par.Blocks {
+		for _, in := range b.Instrs {
+			mc, isMC := in.(*ssa.MakeClosure)
+			if !isMC || mc.Fn != ssa.Value(cl) {
+				continue
+			}
+			for i, f := range cl.FreeVars {
+				if f != fv || i >= len(mc.Bindings) {
+					continue
+				}
+				if al, isA := mc.Bindings[i].(*ssa.Alloc); isA {
+					if st := ir.StoresTo(al); len(st) == 1 {
+						x := ir.Resolve(st[0])
+						if p, isP := x.(*ssa.Parameter); isP {
+							if bv := ir.Bound(p); bv != nil {
+								return bv
+							}
+						}
+						return x
+					}
+				}
+			}
+		}
+	}
+	return v
 }
